@@ -125,3 +125,40 @@ PROPS["C01"] = dict(
     rule="one case per (family, index); duplicates produced by a mutation that leaves the seed unchanged are skipped; non-trivial when opn2_openData accepted the input and the follow-up calls ran on it",
     assumptions=E2_ASSUME + ["null chips (chip factory hook)", "follow-up alphabet: 19 calls (play 64/4096/long, tick, 5 seeks, rewind, 4 song selections, tell/length, metadata incl. out-of-range indices, loop on, track options, channel off, atEnd)"],
 )
+
+SEQ_SRC = ["models/seq_sem.cpp"]
+SEQ_ASSUME = [
+    "wide seam: files go through opn2_openData, events are observed with opn2_setRawEventHook, time with opn2_tickEvents / opn2_play, audio position with the null chip's frame counter",
+    "grammar-generated files only (bounded number of events, the stated delta/event alphabets); every event is made identifiable through its data bytes",
+    "times are compared with 2 microsecond + 1e-9 relative tolerance (tick granularity 1 microsecond)",
+]
+PROPS["C07"] = dict(
+    level="model_checking", engine="enum", title="the sequencer delivers every file event once, in order, at the right time",
+    technique="exhaustive enumeration of all SMF files of a bounded grammar; every file is played on the real library and the delivered event trace is compared with an independent SMF reference interpreter (reference model, every trace replayed on the implementation)",
+    level_text="For every file of the grammar x tempo multipliers x track/channel masks x drivers (self-fed opn2_tickEvents, fixed-step ticks, opn2_play with 5 request sizes) the delivered stream must be exactly the reference stream: "
+               "each event once, per-track order, the three same-tick ordering rules, absolute times from the tempo map scaled by the multiplier, End-of-Track skipping, reported length, audio position window [t*rate-512, t*rate], key-ons at the chips for enabled tracks/channels only.",
+    level_note="reference interpreter written from the SMF specification and the statement (models/seq_sem.cpp reference()); loop markers and CC110/111 are left to C09; tempo events only in track 0 (well-formed format 1); nothing is asserted about the order of different tracks at the same instant",
+    legs=[Leg("smf", SEQ_SRC, "fast", ["--prop", "C07"], ["--prop", "C07"], timeout_thorough=14000)],
+    rule="states = files of the grammar (one per index); transitions = events delivered and compared; a case is non-trivial when the file loaded and its complete trace matched the reference",
+    assumptions=SEQ_ASSUME,
+)
+PROPS["C08"] = dict(
+    level="model_checking", engine="enum", title="seeking equals playing up to the target, minus the sounding notes",
+    technique="exhaustive enumeration of grammar files x all seek targets between event times x all ordered pairs of seeks; differential oracle on the real code (seek path vs linear playback to the same time)",
+    level_text="For every file and every seek target (midway between consecutive event times, 0, inside the trailing second, beyond the end, negative) and every ordered pair of targets: reported position, no keyed-on chip channel, "
+               "controller state of all 16 MIDI channels (program, bank, volume, expression, pan, bend and sensitivity, pedals, RPN state) and the complete stream delivered afterwards with its song times must equal those of an instance that played linearly to the same time.",
+    level_note="differential: no hand-written expectation except the position rule (beyond the end -> 0, negative -> unchanged); at position 0 the controller comparison is skipped because nothing has been played yet on either side (the first row resets the controllers)",
+    legs=[Leg("seek", SEQ_SRC, "fast", ["--prop", "C08"], ["--prop", "C08"], timeout_thorough=14000)],
+    rule="one case per file; inside it every target and ordered pair of targets is executed; non-trivial when all comparisons were made",
+    assumptions=SEQ_ASSUME,
+)
+PROPS["C09"] = dict(
+    level="model_checking", engine="enum", title="loop points: the marked section repeats exactly as often as requested",
+    technique="exhaustive enumeration of marker placements (0..2 markers x every tick x track, valid and invalid) x loop on/off x counts x hook registration orders x resets/loads in between; reference loop semantics from the statement replayed against the real sequencer",
+    level_text="Every placement is played on the library; per track the delivered tick sequence must equal prefix + N x body + tail (first 5 passes for count -1), the end of song must be reported, the first event after every jump must see no keyed-on chip channel (All-Notes-Off), "
+               "loop-end callbacks = arrivals at loop end + song end, loop-start callbacks = passes, also when hooks are registered before opn2_openData / opn2_reset / opn2_switchEmulator.",
+    level_note="don't-cares: events sharing the tick of the loopEnd marker; count 0 is treated as one pass; the song ends at the tick of its last event (lone End-of-Track rule), so a loopStart there is an invalid (empty) loop",
+    legs=[Leg("loops", SEQ_SRC, "fast", ["--prop", "C09"], ["--prop", "C09"])],
+    rule="one case per (marker placement, loop switch, count, hook order, track count); non-trivial when the whole trace and the callback counts matched the reference",
+    assumptions=SEQ_ASSUME,
+)
